@@ -66,7 +66,7 @@ class WorldC06(World):
               'read-absent', 'fault-did-not-fire', 'clock-jump-before-write', 'same-model-written-twice',
               'dimensionless-activation', 'gibbs-activation', 'eight-conditions', 'custom-delimiters',
               'mole-fraction-missing-species', 'EA-gas', 'EA-surface', 'reactants-gas-products-surface',
-              'equal-but-distinct-site-objects', 'barrier-anchored-in-species', 'EA-pressure-series-at-one-T', 'sticking-coefficient-zero')
+              'equal-but-distinct-site-objects', 'barrier-anchored-in-species', 'same-length-variant-mechanism', 'EA-pressure-series-at-one-T', 'sticking-coefficient-zero')
     REAL = ('pmutt.io.chemkin writers and read_reactions', 'pmutt.reaction.ChemkinReaction / Reactions', 'pmutt.chemkin.CatSite',
             'pmutt.empirical.nasa.Nasa', 'pmutt.io._get_file_timestamp')
     SIMULATED = ('disk: SimFS (open/write/close errors, ENOSPC after k characters, crash at four points, read errors)',
@@ -82,7 +82,7 @@ class WorldC06(World):
 
     # ------------------------------------------------------------------ gen
     def gen_swarm(self, rng, tier):
-        return {'n_clients': rng.randint(1, 3), 'paths': ['c%d.inp' % i for i in range(rng.randint(1, 4))],
+        return {'w_variant': rng.choice([0.0, 0.0, 0.05, 0.1]), 'n_clients': rng.randint(1, 3), 'paths': ['c%d.inp' % i for i in range(rng.randint(1, 4))],
                 'fault_rate': rng.choice([0.0, 0.0, 0.15, 0.3]),
                 'fault_kinds': sorted(rng.sample(WRITE_FAULTS + READ_FAULTS, rng.randint(1, 9))),
                 'jump_rate': rng.choice([0.0, 0.2, 0.5]), 'n_sites': rng.choice([1, 1, 2, 3]),
@@ -101,6 +101,7 @@ class WorldC06(World):
         import pmutt.empirical.nasa as nasa
         self.np, self.ck, self.rx, self.pck, self.nasa = np, ck, rx, pck, nasa
         self.kit = FileKit(self)
+        self.plan = []         # ops queued by the generator (a scripted little history)
         self.models = {}       # id -> descriptor
         self.live = {}         # id -> built objects that every write re-uses (state may leak between writes)
         self.written = {}      # path -> dict(kind, model, opts) of the last acknowledged write
@@ -209,9 +210,49 @@ class WorldC06(World):
             o['fracs'] = None       # filled from the model in gen_op
         return o
 
+    def _variant(self, md, rng):
+        """The same mechanism for other gases whose names are as long (H2 -> N2, CH4 -> NH3): every file written from it
+        has exactly the length of the original's."""
+        import json as _json
+        md2 = _json.loads(_json.dumps(md))
+        have = set(d['name'] for d in md['species'])
+        ren = {}
+        for d in md['species']:
+            if d['phase'] == 'G':
+                cand = [g for g in GAS_NAMES if len(g) == len(d['name']) and g not in have and g not in ren.values()]
+                if cand and rng.random() < 0.8:
+                    ren[d['name']] = rng.choice(cand)
+        if not ren:
+            return None
+        for d in md2['species']:
+            d['name'] = ren.get(d['name'], d['name'])
+        for r in md2['reactions']:
+            for side in ('reactants', 'products'):
+                r[side] = [[ren.get(n, n), v] for n, v in r[side]]
+        return md2
+
     def gen_op(self, rng):
         sw = self.ctx.swarm
         c = rng.randrange(sw['n_clients'])
+        if self.plan:
+            return dict(self.plan.pop(0), c=c)
+        if self.models and sw.get('w_variant') and rng.random() < sw['w_variant']:
+            # a parameter study: write the mechanism, read it, write its same-length variant to the same name within the
+            # same tick of the file system's clock, read again
+            m0 = rng.choice(sorted(self.models))
+            md2 = self._variant(self.models[m0], rng)
+            if md2 is not None and any(self._all_gas(self.models[m0], r) for r in self.models[m0]['reactions']):
+                m1 = max(self.models) + 1
+                o = self._gen_opts(rng, 'write_gas')
+                o['to_file'] = True
+                for k_ in ('float_format', 'stoich_format', 'column_delimiter', 'species_delimiter', 'reaction_delimiter'):
+                    o.pop(k_, None)
+                path = rng.choice(sw['paths'])
+                w = lambda m: {'op': 'write_gas', 'fault': None, 'jump': None,
+                               'args': {'model': m, 'path': path, 'opts': dict(o), 'enum': False}}
+                rd = lambda: {'op': 'read', 'fault': None, 'jump': None, 'args': {'path': path, 'with_species': False}}
+                self.plan = [w(m0), rd(), w(m1), rd()]
+                return {'c': c, 'op': 'mkmodel', 'args': {'id': m1, 'model': md2, 'variant_of': m0}}
         if not self.models or (len(self.models) < 2 and rng.random() < 0.1):
             return {'c': c, 'op': 'mkmodel', 'args': {'id': len(self.models), 'model': self._gen_model(rng)}}
         mid = rng.choice(sorted(self.models))
@@ -579,6 +620,8 @@ class WorldC06(World):
             for r in md['reactions']:
                 if any(n not in names for n, _ in r['reactants'] + r['products']) or (r['ts'] and r['ts'] not in names):
                     raise Skip()
+            if a.get('variant_of') is not None:
+                ctx.probe('same-length-variant-mechanism')
             self.models[a['id']] = md
             self.live[a['id']] = self.real(self._build, md, _what='building the mechanism (CatSite, Nasa, ChemkinReaction)')
             if len(md['sites']) > 1:
